@@ -6,6 +6,11 @@ ids = [p['id'] for p in props]
 
 # id -> (category, technique, text, note, design_ref)
 CHECKS = {
+ 'C03': ('exploration',
+         'property-based testing: value-first literal speller and constant-expression generator against an independent evaluator, decoded from the .ui',
+         'Values are generated first and spelled by the ECMAScript lexical grammar (radix prefixes, legacy octal, separators, exponent forms, every string escape form); constant expressions over them use every foldable operator; each sits on a property of matching type (int, uint, double, bool, QString, enum, flags, QStringList, pointer). The harness\' own evaluator (checked i64, IEEE doubles, Unicode strings) gives the expected value, which must equal what an independent XML reader decodes from the .ui; undefined constants and int/double mix-ups must be rejected with an error inside the binding.',
+         'Rejected documents are counted, not judged (acceptance is C05); non-finite doubles and string orders that differ between UTF-16 and code points are skipped. One known finding in the parser dependency (relational chains before `<` nest to the right) is excluded by construction and confirmed by a probe.',
+         'DESIGN.md section 3 C03'),
  'C08': ('exploration',
          'metamorphic property testing: repeated translation under fresh hash seeds, in one process and in fresh processes',
          'Documents built to expose a missing sort (many bindings per object, palettes, fonts, icons, several handlers per object, several includes, several independent errors) are translated 8 times in one process, interleaved with other documents and modes (every HashMap instance gets a new seed), and a sample 3 times by fresh qmluic processes; .ui bytes, header bytes, exit status and the diagnostic multiset must be equal; the command\'s bytes must equal the library\'s.',
